@@ -1397,7 +1397,7 @@ func (d *DFA) determinize(cache *DFACache, current *State, b byte) (*State, erro
 	// Compute state key INCLUDING word context AND match delay flag.
 	// With match delay, the same NFA state set can produce both match and
 	// non-match DFA states (depending on whether the source had NFA match).
-	key := ComputeStateKeyWithWordAndMatch(nextNFAStates, nextIsFromWord, isMatch)
+	key := orderedStateKey(nextNFAStates, nextIsFromWord, isMatch)
 
 	// Check if state already exists in cache
 	if existing, ok := cache.Get(key); ok {
@@ -1488,7 +1488,7 @@ func (d *DFA) tryClearCache(cache *DFACache) error {
 	// With 1-byte match delay, start states are never match states.
 	startState := NewStateWithStride(StartState, startStateSet, false, false, d.AlphabetLen())
 
-	key := ComputeStateKeyWithWord(startStateSet, false)
+	key := orderedStateKey(startStateSet, false, false)
 	_, _ = cache.Insert(key, startState) // Cannot fail: cache was just cleared
 	cache.registerState(startState)
 
